@@ -74,6 +74,7 @@ class Stack:
         self.layers = []      # (kind, obj, depth)
         self.terminals = []   # (kind, obj, stream)
         self.owned = []       # testtools-owned objects with wasSuccessful
+        self.keep = []
 
 
 def build(spec, world, st, failfast_ctor, depth=0):
@@ -86,16 +87,20 @@ def build(spec, world, st, failfast_ctor, depth=0):
         stream = io.StringIO()
         obj = TextTestResult(stream, failfast=ff)
         st.terminals.append((k, obj, stream))
-    elif k == "e2o":
-        obj = ExtendedToOriginalDecorator(build(spec[1], world, st, failfast_ctor, depth + 1))
-    elif k == "multi":
-        obj = MultiTestResult(*[build(s, world, st, failfast_ctor, depth + 1) for s in spec[1:]])
-    elif k == "trd":
-        obj = TestResultDecorator(build(spec[1], world, st, failfast_ctor, depth + 1))
-    elif k == "tagger":
-        obj = Tagger(build(spec[1], world, st, failfast_ctor, depth + 1), {"x"}, set())
-    elif k == "tfr":
-        obj = ThreadsafeForwardingResult(build(spec[1], world, st, failfast_ctor, depth + 1), threading.Semaphore(1))
+    else:
+        kids = [build(s, world, st, failfast_ctor, depth + 1) for s in (spec[1:] if k == "multi" else spec[1:2])]
+        if k == "e2o":
+            obj = ExtendedToOriginalDecorator(kids[0])
+        elif k == "multi":
+            obj = MultiTestResult(*kids)
+        elif k == "trd":
+            obj = TestResultDecorator(kids[0])
+        elif k == "tagger":
+            obj = Tagger(kids[0], {"x"}, set())
+        elif k == "tfr":
+            obj = ThreadsafeForwardingResult(kids[0], threading.Semaphore(1))
+        _CHILDREN[id(obj)] = (obj, kids)     # (the adapter itself is kept so that its id stays its own)
+        st.keep.append(obj)
     st.layers.append((k, obj, depth))
     st.owned.append((k, obj))
     return obj
@@ -227,17 +232,17 @@ def _check_stop(out, st, spec, layer):
                             f"after stop() on {k}, {lk}.shouldStop is {ss!r}; stack {spec}")
 
 
+_CHILDREN = {}    # id(adapter built by build()) -> the objects it was built over (no peeking into private attributes)
+
+
 def _terminals_below(obj):
-    if isinstance(obj, MultiTestResult):
-        out = []
-        for r in obj._results:
-            out += _terminals_below(r)
-        return out
-    if isinstance(obj, ThreadsafeForwardingResult):
-        return _terminals_below(obj.result)
-    if isinstance(obj, (ExtendedToOriginalDecorator, TestResultDecorator)):
-        return _terminals_below(obj.decorated)
-    return [obj]
+    kids = _CHILDREN.get(id(obj))
+    if kids is None:
+        return [obj]
+    out = []
+    for r in kids[1]:
+        out += _terminals_below(r)
+    return out
 
 
 # ------------------------------------------------------------------------------- scenario: suite
@@ -505,6 +510,7 @@ def scenario_run(tape, out):
 def run_one(tape, opts):
     out = Outcome()
     sc = tape.weighted("config", [(4, "history"), (4, "suite"), (1, "run")], "scenario")
+    _CHILDREN.clear()
     clock = vclock.VClock()
     vclock.install(clock)
     warnings.filterwarnings("ignore", message="TestResult has no addDuration method")
